@@ -504,6 +504,13 @@ def gen_scenarios(seed: int, n: int, profile: str) -> list[dict[str, Any]]:
                 env.append((t, ph, op))
         if not alive:
             t += rnd.choice([0, 1, 4]); env.append((t, 1, 'start'))
+        if profile == 'resume' and 'r' in hs and r2.random() < 0.3:
+            # the operator restarts over an object that is being deleted and is still held by the framework's finalizer: resume
+            # handlers that opted in (deleted=True) run for it, the others do not
+            hs['d'] = hdl(['delete'], [('temp', r2.choice([3, 5])), 'ok'], backoff=1)
+            hs['r']['deleted'] = r2.random() < 0.6
+            t += r2.choice([2, 6]); env.append((t, 1, 'delete'))
+            env.append((t + 1, 1, r2.choice(['kill', 'stop']))); env.append((t + 2, 1, 'start')); t += 2
         if profile == 'consistency':
             t += rnd.choice([1, 3, 7]); env.append((t, 1, 'release'))
         # sanitise foreign finalizer ops: add only if absent, delete only if present (checked at run time by _safe)
